@@ -85,6 +85,46 @@ def r1_single_selection_state(ctx, rep, R='C03.R1'):
     rep.check(callers == ['find.Find.global_setup'], R, 'register_tests is called by Find.global_setup only',
               'register_tests callers: %s' % callers, key='register_tests:callers',
               func='runner.Runner.register_tests')
+    registers_everything(ctx, rep, R)
+
+
+def registers_everything(ctx, rep, R):
+    """Find registers every discovered layer in every process (only the import-failure pseudo
+    layer None is taken out): listing, shuffling and children all start from the same state"""
+    fg = ctx.model.func('find.Find.global_setup')
+    regs = [c for c in own_calls(fg.node) if isinstance(c.func, ast.Attribute) and
+            c.func.attr == 'register_tests']
+    ok = len(regs) == 1 and len(regs[0].args) == 1 and isinstance(regs[0].args[0], ast.Name)
+    why = 'register_tests is not given a plain local'
+    if ok:
+        v = regs[0].args[0].id
+        assigns = [n for n in ast.walk(fg.node) if isinstance(n, (ast.Assign, ast.AugAssign)) and
+                   any(is_name(t, v) for t in (n.targets if isinstance(n, ast.Assign) else [n.target]))]
+        src_ok = len(assigns) == 1 and isinstance(assigns[0], ast.Assign) and \
+            isinstance(assigns[0].value, ast.Call) and call_name(assigns[0].value) == 'find_tests'
+        muts = []
+        for n in ast.walk(fg.node):
+            if isinstance(n, ast.Call) and isinstance(n.func, ast.Attribute) and is_name(n.func.value, v) \
+                    and n.func.attr in ('pop', 'clear', 'popitem', 'update', 'setdefault', '__delitem__'):
+                if not (n.func.attr == 'pop' and n.args and isinstance(n.args[0], ast.Constant) and
+                        n.args[0].value is None):
+                    muts.append(norm(n))
+            if isinstance(n, ast.Delete) and any(isinstance(t, ast.Subscript) and is_name(t.value, v)
+                                                 for t in n.targets):
+                muts.append(norm(n))
+            if isinstance(n, ast.Assign) and any(isinstance(t, ast.Subscript) and is_name(t.value, v)
+                                                 for t in n.targets):
+                muts.append(norm(n))
+        from sa.variance import path_literals
+        cond = [norm(e) for e, pos in path_literals(regs[0], fg.node)]
+        ok = src_ok and not muts and not cond
+        why = 'the registered mapping is %s' % ('re-assigned / filtered' if not src_ok else
+                                                 'modified by %s' % muts if muts else
+                                                 'registered only under %s' % cond)
+    rep.check(ok, R, 'Find.global_setup registers exactly what find_tests returned (minus layer None)',
+              'not every discovered layer is registered in every process (%s): a child or a filtered '
+              'run would shuffle / order from a different state than the listing' % why,
+              key='register:everything', func=fg.qualname, where=ctx.where(fg, fg.node))
 
 
 def r2_single_ordering_source(ctx, rep, R='C03.R2'):
